@@ -114,6 +114,29 @@ func (o *Options) hasAccessPermission(r record.Record) bool {
 	return r.Meta().CheckPermission(o.Local, o.Internal)
 }
 
+// checkStoredPermission checks the permission flags of the record as it is
+// stored in the database, for interfaces that do not have all permissions.
+// A cached copy may predate a change of the flags by another interface and
+// must not be used to get around the flags of the stored record. If the
+// stored record denies access, the cached copy is dropped.
+func (i *Interface) checkStoredPermission(db *Controller, dbName, dbKey string) error {
+	if i.options.HasAllPermissions() {
+		return nil
+	}
+
+	m, err := db.GetMeta(dbKey)
+	if err != nil {
+		// The record is gone or the storage failed: the cache only serves
+		// outdated data, as documented for the CacheSize option.
+		return nil //nolint:nilerr
+	}
+	if !m.CheckPermission(i.options.Local, i.options.Internal) {
+		i.cache.Remove(dbName + ":" + dbKey)
+		return ErrPermissionDenied
+	}
+	return nil
+}
+
 // NewInterface returns a new Interface to the database.
 func NewInterface(opts *Options) *Interface {
 	if opts == nil {
@@ -176,6 +199,9 @@ func (i *Interface) getRecord(dbName string, dbKey string, mustBeWriteable bool)
 		if !i.options.hasAccessPermission(r) {
 			return nil, db, ErrPermissionDenied
 		}
+		if err := i.checkStoredPermission(db, dbName, dbKey); err != nil {
+			return nil, db, err
+		}
 		return r, db, nil
 	}
 
@@ -219,6 +245,9 @@ func (i *Interface) getMeta(dbName string, dbKey string, mustBeWriteable bool) (
 	if r != nil {
 		if !i.options.hasAccessPermission(r) {
 			return nil, db, ErrPermissionDenied
+		}
+		if err := i.checkStoredPermission(db, dbName, dbKey); err != nil {
+			return nil, db, err
 		}
 		return r.Meta(), db, nil
 	}
